@@ -15,23 +15,37 @@ RULE = ("Each case queues 1-6 requests (GET/POST/PUT, bodies, each with a unique
         "for cross-host redirects; plain, or TLS for the refusal case). Per request the peer script draws: immediate or delayed "
         "answer, response split into seeded fragments, Content-Length or chunked framing, 0-3 redirect hops (301/302/303/307; "
         "relative Location, absolute same host, absolute other host), a close-delimited answer for the last request, the peer "
-        "closing the connection in the middle of the queue, or (TLS) a redirect from https to plain http. Oracle: (one at a "
+        "closing the connection in the middle of the queue, a redirect that cannot be followed (no Location, invalid Location) or (TLS) "
+        "a redirect from https to plain http on another port or on the https peer's own port, anywhere in the queue. Oracle: (one at a "
         "time) no request head reaches any peer while an earlier request's (or redirect hop's) response is still incomplete; "
         "(FIFO, exactly once) client.responses carry the markers of the queued requests in queue order without duplicates, and, "
         "for peers that do not close early, exactly one entry per request within the drain bound, each with the body the peer "
         "sent for it; redirect history (one entry per hop) is attached to the final entry and the intermediate 3xx never appear "
-        "as separate entries; (refusal) after an https->http Location no connection reaches the http target. "
+        "as separate entries; (refusal) after an https->http Location no connection reaches the http target and no request for the next hop is "
+        "sent anywhere; a request whose redirect cannot be followed gets the 3xx itself as its one entry and the requests queued "
+        "behind it are answered as usual. "
         "Non-trivial: >= 3 requests queued and (>= 1 redirect hop or >= 1 delayed answer) with a response split over >= 2 reads. "
         "Distinct: digest of queue + peer script.")
 COMPONENTS = dict(real=["hio.core.http.clienting.Client/Requester/Respondent", "hio.core.tcp.clienting.Client/ClientTls", "OpenSSL engine (TLS cases)"],
                   stub=["kernel sockets (FakeSocket)", "scripted raw peers"])
 ASSUMPTIONS = ["liveness is demanded only when no peer closes the connection before the queue is done (hio documents no reconnect for queued requests)",
-               "how an https->http refusal is signalled is not prescribed; only that nothing reaches the http target"]
+               "how an https->http refusal is signalled is not prescribed beyond the 3xx being that request's entry; nothing reaches the http target and no next-hop request is sent"]
 PROBES = ["redirect_relative", "redirect_other_host", "redirect_multi_hop", "delayed_answer", "close_delimited_last", "peer_closes_mid_queue",
-          "https_to_http_refused", "chunked_answer"]
+          "https_to_http_refused", "chunked_answer", "unfollowable_redirect_reported", "request_after_unfollowable_redirect"]
 BOUNDS = dict(quick=dict(requests=6, hops=3), thorough=dict(requests=8, hops=3))
-TIERS = dict(quick=dict(cases=3000, wall=45.0), thorough=dict(cases=200000, wall=420.0))
+TIERS = dict(quick=dict(cases=20000, wall=45.0), thorough=dict(cases=400000, wall=420.0))
 SIM_TIME_UNIT = "net steps"
+
+STUCK = ("noloc", "badloc", "downgrade-other", "downgrade-same")    # redirects that must not be followed
+
+
+def stuck_at(r):
+    """index of the hop of request r that cannot be followed, or None"""
+    for j, h in enumerate(r["hops"]):
+        if h["target"] in STUCK:
+            return j
+    return None
+
 
 PORT_B = 56002
 PORT_HTTP = 56003      # plain http target that must never be reached in the refusal case
@@ -48,7 +62,10 @@ def run_case(tape, tier):
         hops = []
         for h in range(tape.geometric("nhops", 3, 1, 4)):
             hops.append(dict(status=tape.pick("rstatus", [301, 302, 303, 307]),
-                             target=tape.pick("rtarget", ["rel", "abs-same", "abs-other"] if not tls else ["rel", "abs-same"])))
+                             target=tape.pick("rtarget", ["rel", "abs-same", "abs-other", "rel", "abs-same", "abs-other", "noloc", "badloc"] if not tls
+                                              else ["rel", "abs-same", "rel", "abs-same", "noloc", "badloc"])))
+            if hops[-1]["target"] in STUCK:
+                break      # a redirect that cannot be followed ends the chain: the 3xx itself is the answer
         spec = dict(i=i, method=method, body=body, hops=hops, delay=tape.pick("delay", [0, 0, 1, 3, 8]),
                     framing=tape.pick("framing", ["length", "length", "chunked"]), nfrag=1 + tape.draw("nfrag", 4))
         reqs.append(spec)
@@ -61,6 +78,13 @@ def run_case(tape, tier):
     if special == "peer-closes-mid" and nreq >= 2:
         close_at = tape.draw("close_at", nreq)
     refuse_at = tape.draw("refuse_at", nreq) if special == "https-to-http" else None
+    if refuse_at is not None:
+        # the refused hop: Location is plain http, on another port or on the very port the https peer listens on
+        r = reqs[refuse_at]
+        k = tape.draw("refuse_hop", len(r["hops"]) + 1)
+        del r["hops"][k:]
+        r["hops"] = [h for h in r["hops"] if h["target"] not in STUCK]
+        r["hops"].append(dict(status=302, target=tape.pick("downgrade", ["downgrade-other", "downgrade-same"])))
     cfg = dict(tls=tls, special=special, close_at=close_at, refuse_at=refuse_at,
                requests=[dict(i=r["i"], method=r["method"], hops=r["hops"], delay=r["delay"], framing=r["framing"], nfrag=r["nfrag"]) for r in reqs])
     raised = []
@@ -83,13 +107,18 @@ def run_case(tape, tier):
 
         def respond_bytes(r, hop, peer_port):
             """response for request r at hop index `hop` (0 = original request)"""
-            if refuse_at == r["i"] and hop == 0:
-                loc = "http://127.0.0.1:%d/m%d/h1" % (PORT_HTTP, r["i"])
-                return ("HTTP/1.1 302 Found\r\nLocation: %s\r\nContent-Length: 0\r\n\r\n" % loc).encode(), False
             if hop < len(r["hops"]):
                 h = r["hops"][hop]
                 path = "/m%d/h%d" % (r["i"], hop + 1)
-                if h["target"] == "rel":
+                if h["target"] == "noloc":
+                    return ("HTTP/1.1 %d Redirect\r\nContent-Length: 0\r\n\r\n" % h["status"]).encode(), False
+                if h["target"] == "badloc":
+                    loc = ["http://[::1" + path, "http://127.0.0.1:99999" + path][r["i"] % 2]
+                elif h["target"] == "downgrade-other":
+                    loc = "http://127.0.0.1:%d%s" % (PORT_HTTP, path)
+                elif h["target"] == "downgrade-same":
+                    loc = "http://127.0.0.1:%d%s" % (peer_port, path)
+                elif h["target"] == "rel":
                     loc = path
                 elif h["target"] == "abs-same":
                     loc = "%s://127.0.0.1:%d%s" % ("https" if tls else "http", peer_port, path)
@@ -133,6 +162,11 @@ def run_case(tape, tier):
                     violation.append(("not-one-at-a-time", "request %d (hop %d) reached a peer while the response to request %d (hop %d) "
                                       "was still incomplete" % (mid, hop, busy[0][0], busy[0][1])))
                 r = reqs[mid]
+                sa = stuck_at(r)
+                if sa is not None and hop > sa:
+                    violation.append(("unfollowable-redirect-followed", "request %d: hop %d (%s) cannot be followed (%s) but the client "
+                                      "sent the request for hop %d to port %d" % (mid, sa, r["hops"][sa]["status"], r["hops"][sa]["target"], hop, port)))
+                    hop = len(r["hops"])     # answer it plainly so that the run goes on
                 data, close_after = respond_bytes(r, hop, port)
                 n = r["nfrag"]
                 cuts = sorted(set(1 + tape.draw("rcut", max(1, len(data) - 1)) for _ in range(n - 1))) if len(data) > 1 else []
@@ -199,7 +233,7 @@ def run_case(tape, tier):
         resp = snaps
         mids = [e["mid"] for e in resp]
         res.comparisons = len(resp) + 3
-        early_close = close_at is not None or special == "https-to-http"
+        early_close = close_at is not None
         if raised:
             res.violate("service-raised", "Client.service() raised %s: %s" % raised[0])
         elif violation:
@@ -219,12 +253,23 @@ def run_case(tape, tier):
                 for e in resp:
                     mid = e["mid"]
                     r = reqs[mid]
-                    if refuse_at == mid:
-                        continue
                     if close_at is not None and mid >= close_at:
+                        continue
+                    sa = stuck_at(r)
+                    if sa is not None:
+                        # the 3xx that cannot be followed is this request's one entry, with the hops before it as history
+                        if e["status"] != r["hops"][sa]["status"] or len(e["redirects"]) != sa:
+                            res.violate("fifo-wrong-response", "request %d: hop %d (%s, %s) cannot be followed; its entry has status %s and %d history "
+                                        "entries (want status %s and %d)" % (mid, sa, r["hops"][sa]["status"], r["hops"][sa]["target"], e["status"],
+                                                                             len(e["redirects"]), r["hops"][sa]["status"], sa))
+                            break
+                        res.probes["unfollowable_redirect_reported"] += 1
                         continue
                     if e["status"] != 200 or e["body"] != b"answer-for-%d" % mid:
                         res.violate("fifo-wrong-response", "entry for request %d appeared with status %s body %r" % (mid, e["status"], e["body"][:40]))
+                        break
+                    if e["errored"]:
+                        res.violate("fifo-wrong-response", "entry for request %d (well-formed 200 answer, body as sent) is flagged errored" % mid)
                         break
                     nh = len(e["redirects"])
                     if nh != len(r["hops"]):
@@ -254,6 +299,8 @@ def run_case(tape, tier):
         res.probes["close_delimited_last"] += 1
     if res.faults.get("peer_closes_mid_queue"):
         res.probes["peer_closes_mid_queue"] += 1
+    if any(stuck_at(r) is not None for r in reqs[:-1]):
+        res.probes["request_after_unfollowable_redirect"] += 1
     if any(r["framing"] == "chunked" for r in reqs):
         res.probes["chunked_answer"] += 1
     res.scenario = lambda: dict(config=cfg, raised=raised, peer_log=[list(x) for x in log][:60],
